@@ -53,7 +53,7 @@ Step ==
         /\ H([a |-> "call", k |-> k, p |-> p, c |-> c, gate |-> g, cancel |-> 0, us |-> 0])
   \/ \E r \in Rpcs : rpc[r].st = "called" /\
         \/ /\ ~(\E q \in Rpcs : q # r /\ InHandler(q) /\ rpc[q].p = rpc[r].p) /\ gc.st \notin {"in"}
-           /\ GetPod(r, pod[rpc[r].p].api \/ pod[rpc[r].p].cached, pod[rpc[r].p].sticky) /\ Keep /\ H([a |-> "obs"])
+           /\ GetPod(r, pod[rpc[r].p].api \/ pod[rpc[r].p].cached, pod[rpc[r].p].sticky, TRUE) /\ Keep /\ H([a |-> "obs"])
         \/ /\ \E q \in Rpcs : q # r /\ InHandler(q) /\ rpc[q].p = rpc[r].p
            /\ RpcRet(r, FALSE, "processing", 0, 0) /\ Keep /\ H([a |-> "obs"])
   \/ \E r \in Rpcs : rpc[r].st = "in" /\ rpc[r].k = "add" /\
@@ -88,7 +88,7 @@ Step ==
   \/ gc.st = "called" /\ (\A r \in Rpcs : rpc[r].st # "in") /\ LocalPods({ p \in Pods : pod[p].loc = "run" }, FALSE) /\ Keep /\ H([a |-> "obs"])
   \/ gc.st = "in" /\ wr = NoWr /\ \E p \in Pods :
         \/ /\ disk[p] # NoRec /\ p \notin gc.live /\ gc.exist[p] = "?"
-           /\ PodExist(p, IF apierr THEN FALSE ELSE pod[p].api, apierr) /\ Keep /\ H([a |-> "obs"])
+           /\ PodExist(p, IF apierr THEN FALSE ELSE pod[p].api, apierr, TRUE) /\ Keep /\ H([a |-> "obs"])
         \/ /\ disk[p] # NoRec /\ p \notin gc.live /\ gc.exist[p] = "no" /\ disk[p].s
            /\ PutBegin(p, [disk[p] EXCEPT !.s = FALSE]) /\ Keep /\ H([a |-> "obs"])
         \/ /\ disk[p] # NoRec /\ p \notin gc.live /\ gc.exist[p] = "no" /\ ~disk[p].s
